@@ -20,22 +20,22 @@ open Cql Cql.Value
 def be (k n : Nat) : Bytes := (List.range k).map fun i => UInt8.ofNat (n / 256 ^ (k - 1 - i) % 256)
 
 /-- a `k`-byte two's complement integer: the big-endian numeral of `v mod 2^(8k)` -/
-def twos (k : Nat) (v : Int) : Bytes := be k (v % ((256 ^ k : Nat) : Int)).toNat
+def twosV (k : Nat) (v : Int) : Bytes := be k (v % ((256 ^ k : Nat) : Int)).toNat
 
 /-- `[int]`: "A 4 bytes integer" (signed) -/
-def int (v : Int) : Bytes := twos 4 v
+def intV (v : Int) : Bytes := twosV 4 v
 
 /-- `[short]`: "A 2 bytes unsigned integer" -/
-def short (n : Nat) : Bytes := be 2 n
+def shortV (n : Nat) : Bytes := be 2 n
 
 /-- `[bytes]`: "A [int] n, followed by n bytes if n >= 0. If n < 0, no byte should follow and the value represented
     is `null`"; §5.21: "Null values may be represented by using length -1" -/
 def bytesOpt : Option Bytes → Bytes
-  | none => int (-1)
-  | some b => int b.length ++ b
+  | none => intV (-1)
+  | some b => intV b.length ++ b
 
 /-- `[short bytes]`: "A [short] n, followed by n bytes if n >= 0" -/
-def shortBytes (b : Bytes) : Bytes := short b.length ++ b
+def shortBytesV (b : Bytes) : Bytes := shortV b.length ++ b
 
 /-- `[unsigned vint]`: with `e` extra bytes the first byte starts with `e` one-bits; then (for `e < 8`) a zero bit,
     which leaves `7 - e` payload bits in the first byte and `8e` in the extra bytes: `7e + 7` in all. "If the
@@ -73,7 +73,7 @@ def minTwosLen (v : Int) : Nat := minTwosLenFrom v v.natAbs 1
 
 /-- §5.24 "A variable-length two's complement encoding of a signed integer": the shortest one (the example table:
     positive numbers get a leading 0x00 only when their most significant bit would otherwise read as a sign) -/
-def minimalTwosComplement (v : Int) : Bytes := twos (minTwosLen v) v
+def minimalTwosComplement (v : Int) : Bytes := twosV (minTwosLen v) v
 
 /-! ## §5.1 – §5.24: scalar formats -/
 
@@ -108,10 +108,10 @@ def formatOf (c : Nat) : Option Format := formatTable.lookup c
 
 def serializeScalar : Format → CqlVal → Bytes
   | .bytes, .bytes b => b                                   -- "Any sequence of bytes"
-  | .int k, .int v => twos k v                              -- "A k byte two's complement integer"
+  | .int k, .int v => twosV k v                              -- "A k byte two's complement integer"
   | .boolean, .bool b => if b then [1] else [0]             -- §5.4 "A single byte. A value of 0 denotes false"; 1 recommended for true
   | .date, .int days => be 4 (days + 2147483648).toNat      -- §5.5 "An unsigned integer representing days with epoch centered at 2^31"
-  | .decimal, .decimal u s => int s ++ minimalTwosComplement u   -- §5.6 "an [int] scale component followed by a varint encoding of the unscaled value"
+  | .decimal, .decimal u s => intV s ++ minimalTwosComplement u   -- §5.6 "an [int] scale component followed by a varint encoding of the unscaled value"
   | .double, .double bits => be 8 bits                      -- §5.7 "An 8 byte floating point number in the IEEE 754 binary64 format"
   | .duration, .duration m d n => vint m ++ vint d ++ vint n     -- §5.8 "3 signed variable length integers ([vint]s)": months, days, nanoseconds
   | .float, .float bits => be 4 bits                        -- §5.9 "A 4 byte floating point number in the IEEE 754 binary32 format"
@@ -151,11 +151,11 @@ def HasFormat : Format → CqlVal → Prop
 def fourByte (version : Nat) : Bool := decide (version ≥ 3)
 
 /-- v5 §5.12 "A [int] n indicating the number of elements"; v2 §6 "a [short] n indicating the size of the list" -/
-def count (version : Nat) (n : Nat) : Bytes := if fourByte version then int n else short n
+def count (version : Nat) (n : Nat) : Bytes := if fourByte version then intV n else shortV n
 
 /-- v5 §5.12 "Each element is [bytes] representing the serialized value"; v2 §6 "Each element is [short bytes]" -/
 def element (version : Nat) (o : Option Bytes) : Bytes :=
-  if fourByte version then bytesOpt o else shortBytes (o.getD [])
+  if fourByte version then bytesOpt o else shortBytesV (o.getD [])
 
 mutual
 def serialize (version : Nat) : DataType → CqlVal → Bytes
